@@ -249,8 +249,8 @@ def eval_case(case):
         forms = make_forms(text, raw_override, schedules, bname)
         for level in ("scan", "parse", "compose", "load"):
             L = loaders[level]
-            if defect is not None and level == "load" and run_form("load", L, base_text)[2] is not None:
-                continue    # the base document does not construct: a constructor error may legitimately come first
+            if defect is not None and run_form(level, L, base_text)[2] is not None:
+                continue    # the base document itself fails at this level: that error may legitimately come first
             if raw_override is None:
                 ref_items, ref_idx, ref_err, ref_exc = run_form(level, L, text)
                 evals += 1
@@ -355,7 +355,10 @@ def base_texts():
                              "--- |\r\n  \U0001F600\r\n...\r\n", "a: b\r", "\U0001F600",
                              # characters a position counter treats specially, INSIDE scalars and comments, followed by more tokens
                              "k: a\ufeffb # c\ufeffd\nj: [x\ufeffy, 'q\ufeffr', \"s\ufefft\"]\n", "- |\n  l\ufeffm\n- n\ufeffo: p\n",
-                             "a\u200bb: c\u200dd # e\n[f\u2060g, h]: i\n", "k: e\u0301 \uff21 x\n- \u202ey: z\n"])
+                             "a\u200bb: c\u200dd # e\n[f\u2060g, h]: i\n", "k: e\u0301 \uff21 x\n- \u202ey: z\n",
+                             # ... and at the START of a later line / document / token (where only offset 0 is special)
+                             "a: b\n\ufefftail: c\nd: e\n", "- x\n- y\n\ufeff- z\n", "--- a\n\ufeff--- b\n...\n\ufeffc\n", "k:\n  \ufeffv\n\ufeff# c\nj: 1\n",
+                             "a: b\r\n\ufeffc: d\r\n", "[a,\n\ufeffb]\n", "\ufeff\ufeffa: b\n", "a: 1\n\u200bb: 2\n\u2060c: 3\n"])
     return st.one_of(gi.rendered_texts(2, 8), gi.rendered_texts(2, 8), extra)
 
 
